@@ -1,7 +1,7 @@
 (* Properties/C03.v — programmatically built trees behave like the equivalent Markdown. *)
 From Coq Require Import List Ascii String.
 From GT Require Import Base.GoStr Md.Parser Tree.Tree Tree.Gen Tree.Grower Api.Simple Fs.FsModel Api.Programmable Spec.Spec
-  Proofs.GenItems Proofs.Programmable.
+  Spec.Spelling Proofs.GenItems Proofs.Programmable Proofs.SpelledTop.
 Import ListNotations.
 
 (* every tree reachable through any sequence of NewRoot / Add (and any other operations in
@@ -48,6 +48,15 @@ Theorem C03_verify : forall w h c strict dir input rows t st',
   pstep w (PMdVerify c strict dir input) = pstep w (PVerify (Some h) c strict dir).
 Proof. exact verify_root_is_verify_md. Qed.
 Print Assumptions C03_verify.
+
+(* THE EQUIVALENCE AT FULL STRENGTH: for ANY spelling (Spec/Spelling.v) of an Add-built tree *)
+Theorem C03_equiv : forall sp t, spells sp [t] -> nodup_sib t ->
+  (forall c, c_dry c = false -> output_md c (bytes_of sp) = output_root c t) /\
+  (forall c cb, c_dry c = false -> is_default (c_enc c) = true -> walk_md c cb (bytes_of sp) = walk_root (c_bf c) cb t) /\
+  (forall w h c d, root_of w (Some h) = Ok t -> pstep w (PMdMkdir c d (bytes_of sp)) = pstep w (PMkdir (Some h) c d)) /\
+  (forall w h c s d, root_of w (Some h) = Ok t -> pstep w (PMdVerify c s d (bytes_of sp)) = pstep w (PVerify (Some h) c s d)).
+Proof. exact root_equals_markdown. Qed.
+Print Assumptions C03_equiv.
 
 (* a nil node is rejected with ErrNilNode, a non-root node with ErrNotRoot; the world (trees,
    file system) is unchanged and nothing is written *)
